@@ -47,6 +47,27 @@ def run(ctx: RuleContext):
     ctx.sub(check_hook_install_writes, ctx, r, "C12.4")
     ctx.sub(check_caches, ctx, r, cg, "C12.5")
     ctx.reuse("C12.6", check_failed_checks_leave_nothing, ctx, r)
+    ctx.reuse("C12.7", check_unpickling_is_history_free, ctx)
+
+
+def check_unpickling_is_history_free(ctx):
+    """C12.7: 'never on ... pickling': what a pickled annotation is loaded as does not go through a process-wide mutable table
+    (a registry of live annotation classes, an interning dict): the loaded annotation would be whichever object earlier activity
+    left there -- possibly one that another decoration has since changed (C20.3's loader discipline)."""
+    from . import c20
+
+    m = ctx.model
+    red = m.func("_array_types._pickle_array_annotation")
+    ctx.saw(red)
+    gen, cats, items, loader = c20.reducer_plan(ctx, red)
+    if loader is None:
+        ctx.ok("C12.7", red.qualname, "annotations are loaded by replaying the subscription on the category class itself (no loader function, no table)")
+        return
+    ctx.saw(loader)
+    n0 = len(ctx.findings)
+    c20._check_loader(ctx, red, loader)
+    if len(ctx.findings) == n0:
+        ctx.ok("C12.7", loader.qualname, "the loader consults and updates no process-wide table")
 
 
 def check_failed_checks_leave_nothing(ctx, r):
